@@ -159,6 +159,7 @@ def run(ctx):
     ki = names.index("known_labels")
     ntab = 0
     bad_tab = []
+    bad_enc = []
     for vname, combo, value in am.instructions():
         if vname == "AsmEquals":
             continue
@@ -177,6 +178,17 @@ def run(ctx):
             wrote = [e for e in I.events if e.kind in ("write", "havoc") and e.info[0] == ta_ and len(e.info) > 1
                      and e.info[1][:1] == (ki,)]
             ntab += 1
+            # ... and the line is encoded exactly as with an empty table: what is already defined must not change the
+            # bytes a line produces (no "relaxation" of a reference whose target happens to be known)
+            if vname not in directives and isinstance(after, Agg):
+                ent_ = after.f[names.index("bytes")]
+                bols_ = ent_.e[0].f[1] if isinstance(ent_, Arr) and len(ent_.e) == 1 else None
+                act_ = actual_slots(p, bols_, bvi) if bols_ is not None else None
+                want_ = expected_slots(enc[vname], combo)
+                if act_ != want_:
+                    bad_enc.append("%s %s at %d with every name defined as %d: emitted %s, reference %s" %
+                                   (vname, ", ".join(getattr(c, "desc", str(c)) for c in combo), n0, entry,
+                                    D.short(act_), D.short(want_)))
             if not (isinstance(after, Agg) and after.f[ki] == table) or wrote:
                 bad_tab.append("%s %s at %d with an entry of value %d: table now %s" %
                                (vname, ", ".join(getattr(c, "desc", str(c)) for c in combo) if isinstance(combo, (list, tuple)) else "",
@@ -185,6 +197,10 @@ def run(ctx):
            "no instruction or directive other than a definition (.EQU, label) changes the value of a defined name",
            pb.loc(), "; ".join(bad_tab[:3]) or "%d (shape, position) cases" % ntab,
            "A4 on Translator::push_instruction with a non-empty symbol table; any write or unmodelled access to the table counts")
+    chk.ob("encoding/independent-of-defined-names", not bad_enc,
+           "a line produces the documented encoding whatever names are already defined (a reference is resolved late, never "
+           "re-encoded because its target is known)", pb.loc(), "; ".join(bad_enc[:3]) or "%d (shape, position) cases" % ntab,
+           "A4 on Translator::push_instruction with a symbol table in which every name is defined")
     chk.floor("symbol-table cases", ntab, 4000)
 
     # ---- directives ---------------------------------------------------------------------------
